@@ -95,7 +95,12 @@ def replay(chk, vecs, par=8):
         return obs
     with ThreadPoolExecutor(max_workers=par) as ex:
         res = list(ex.map(one, chunks))
-    return [o for r in res for o in r]
+    # chunk c holds vectors c, c+par, c+2par, ...: restore the order of vecs
+    out = [None] * len(vecs)
+    for c, r in enumerate(res):
+        for j, o in enumerate(r):
+            out[c + j * par] = o
+    return out
 
 
 def run(chk, replay_rec):
@@ -154,6 +159,12 @@ def run(chk, replay_rec):
         vecs.append(dict(w=1, steps=seq, scene=scene, full=True, sid=si))
         for k in sorted(scheds):
             vecs.append(dict(w=3, steps=scheds[k], scene=scene, full=False, sid=si))
+    # a long-stalled worker: worker 1 holds the first batch of a layer of > 1100 batches while worker 2
+    # handles all the others (generated schedule; the sequential one on the same scene is the reference)
+    BIG = dict(dims=[2, 330, 330], k=1, parts=[dict(kind="box", c=[2, 160, 160], h=[1, 158, 150], w=1, op="u"),
+                                                dict(kind="plane", c=[2, 160, 160], h=[1, 2, -1], w=1, op="i")])
+    vecs.append(dict(w=2, gen="seq", steps=[], scene=BIG, full=False, sid=9))
+    vecs.append(dict(w=2, gen="stall", steps=[], scene=BIG, full=False, sid=9))
     obs = replay(chk, vecs)
     if len(obs) != len(vecs):
         raise vlib.Inconclusive("schedule replay returned %d of %d" % (len(obs), len(vecs)))
@@ -170,7 +181,7 @@ def run(chk, replay_rec):
     ev = []
     for v, o in zip(vecs, obs):
         ev.append(dict(key="scene%d" % v["sid"], digest=o["digest"], realised=o["realised"], sched=o["sched"]))
-    order = sorted(range(len(ev)), key=lambda i: (not obs[i]["full"],))
+    order = sorted(range(len(ev)), key=lambda i: (not (obs[i]["full"] or vecs[i].get("gen") == "seq"),))
     ev = [ev[i] for i in order]
     bad = chk.validate("DetTrace", [dict(key=e["key"], digest=e["digest"], realised=e["realised"]) for e in ev], chunks=1)
     unreal = len(getattr(chk, "last_drift", []))
@@ -179,7 +190,7 @@ def run(chk, replay_rec):
         full_e = idx[(e["key"], e["digest"])]
         sid = int(e["key"][5:])
         culprit = [v for v, o in zip(vecs, obs) if v["sid"] == sid and o["digest"] == e["digest"]][:1]
-        ref = [v for v in vecs if v["sid"] == sid and v["full"]]
+        ref = [v for v in vecs if v["sid"] == sid and (v["full"] or v.get("gen") == "seq")]
         # confirm
         again = replay(chk, ref + culprit, par=1)
         if len({o["digest"] for o in again}) < 2:
